@@ -26,6 +26,10 @@ func c05Code(c *Ctx, ev *c05Eval) {
 	c05CMS(c, ev)
 	c05PSS(c, ev)
 	c05Strings(c)
+	c.Rule("R05n", "OpenPGP packet length encoding switches forms at 192 and 8384 (RFC 4880 4.2.2)", 2)
+	for _, f := range pgpLengthThresholds(c.P) {
+		c.Check(f.OK, "R05n", f.Key, f.Pos, "", f.Detail)
+	}
 }
 
 // ------------------------------------------------------------------------------ R05g
